@@ -171,7 +171,7 @@ Definition O10 : oracles := {|
   o_BigSetString := fun s base => match dec10 s with Some v => (v, true) | None => (0, false) end;
   o_BigText := fun v base => fmt10 v;
   o_f64_to_f32 := fun x => x; o_f32_to_f64 := fun x => x; o_f64_eqb := Z.eqb; o_f64_isnan := fun _ => false;
-  o_BigFloat_Float64 := fun f => (0, 0); o_BigFloat_SetFloat64 := fun x => (0, 0);
+  o_BigFloat_Float64 := fun f => (0, 0); o_BigFloat_SetFloat64 := fun p x => ((0, 0), 0);
   o_TimeParse := fun _ _ => Err; o_TimeFormat := fun _ _ => ""%string
 |}.
 
